@@ -175,7 +175,7 @@ func c02One[S algebra.PrimeFieldElement[S]](c *Ctx, r *Rng, f algebra.PrimeField
 	res := safely(func() string {
 		var err error
 		ac, err = p.build()
-		return errClass(err)
+		return c02errClass(err)
 	})
 	c.Emit("new "+tok, res)
 	if res != "ok" {
@@ -195,7 +195,7 @@ func c02One[S algebra.PrimeFieldElement[S]](c *Ctx, r *Rng, f algebra.PrimeField
 		for m := range qual {
 			qual[m] = ac.IsQualified(toIDs(subsetOf(U, m))...)
 		}
-		return idsHex(U) + "/" + bitsStr(qual)
+		return idsHex(U) + "/" + c02bitsStr(qual)
 	})
 	c.Emit("qual "+tok, res)
 	nq := 0
@@ -214,7 +214,7 @@ func c02One[S algebra.PrimeFieldElement[S]](c *Ctx, r *Rng, f algebra.PrimeField
 		var err error
 		sch, err = kw.NewScheme(f, ac)
 		if err != nil {
-			return errClass(err)
+			return c02errClass(err)
 		}
 		return "ok:" + viewMSP(sch.MSP()).str("/")
 	})
@@ -251,7 +251,7 @@ func c02One[S algebra.PrimeFieldElement[S]](c *Ctx, r *Rng, f algebra.PrimeField
 				c.Violation(fmt.Sprintf("CanReconstruct != Accepts policy=%s mask=%d", tok, m))
 			}
 		}
-		return bitsStr(acc)
+		return c02bitsStr(acc)
 	})
 	c.Emit(fmt.Sprintf("accepts %s %s %s", ps, tok, mv), res)
 	for m := range acc {
@@ -277,7 +277,7 @@ func c02One[S algebra.PrimeFieldElement[S]](c *Ctx, r *Rng, f algebra.PrimeField
 			for i, id := range S_ {
 				co, err := M.ReconstructionCoefficients(sharing.ID(id), toIDs(S_)...)
 				if err != nil {
-					return "coeff-" + errClass(err)
+					return "coeff-" + c02errClass(err)
 				}
 				parts[i] = strconv.FormatUint(id, 16) + "=" + scalarsHex(co)
 			}
@@ -300,7 +300,7 @@ func c02One[S algebra.PrimeFieldElement[S]](c *Ctx, r *Rng, f algebra.PrimeField
 		var df *kw.DealerFunc[S]
 		shares, df, err = kwDeal(sch, secret, r)
 		if err != nil {
-			return errClass(err)
+			return c02errClass(err)
 		}
 		col = colStr(df)
 		if !df.Secret().Value().Equal(secret) {
@@ -354,9 +354,9 @@ func c02One[S algebra.PrimeFieldElement[S]](c *Ctx, r *Rng, f algebra.PrimeField
 			continue
 		}
 		res = safely(func() string {
-			quorum, err := unanimity.NewUnanimityAccessStructure(idSet(Q))
+			quorum, err := unanimity.NewUnanimityAccessStructure(c02idSet(Q))
 			if err != nil {
-				return "quorum-" + errClass(err)
+				return "quorum-" + c02errClass(err)
 			}
 			vals := map[uint64]S{}
 			sum := f.Zero()
@@ -366,7 +366,7 @@ func c02One[S algebra.PrimeFieldElement[S]](c *Ctx, r *Rng, f algebra.PrimeField
 				}
 				a, err := sch.ConvertShareToAdditive(shares[id], quorum)
 				if err != nil {
-					return errClass(err)
+					return c02errClass(err)
 				}
 				vals[id] = a.Value()
 				sum = sum.Add(a.Value())
@@ -392,7 +392,7 @@ func c02One[S algebra.PrimeFieldElement[S]](c *Ctx, r *Rng, f algebra.PrimeField
 		res = safely(func() string {
 			sharesB, dfB, err := kwDeal(sch, secretB, r)
 			if err != nil {
-				return errClass(err)
+				return c02errClass(err)
 			}
 			add := map[uint64]*kw.Share[S]{}
 			mul := map[uint64]*kw.Share[S]{}
@@ -493,11 +493,11 @@ func c02Shamir[S algebra.PrimeFieldElement[S]](c *Ctx, r *Rng, f algebra.PrimeFi
 	res := safely(func() string {
 		sch, err := shamir.NewScheme(f, ac)
 		if err != nil {
-			return errClass(err)
+			return c02errClass(err)
 		}
 		out, poly, err := sch.DealAndRevealDealerFunc(shamir.NewSecret(secret), r)
 		if err != nil {
-			return errClass(err)
+			return c02errClass(err)
 		}
 		coeffs = polyStr(poly.Coefficients(), p.t)
 		shares = map[uint64]*shamir.Share[S]{}
@@ -534,15 +534,15 @@ func c02Shamir[S algebra.PrimeFieldElement[S]](c *Ctx, r *Rng, f algebra.PrimeFi
 			continue
 		}
 		res = safely(func() string {
-			quorum, err := unanimity.NewUnanimityAccessStructure(idSet(Q))
+			quorum, err := unanimity.NewUnanimityAccessStructure(c02idSet(Q))
 			if err != nil {
-				return "quorum-" + errClass(err)
+				return "quorum-" + c02errClass(err)
 			}
 			vals := map[uint64]S{}
 			for _, id := range Q {
 				a, err := shares[id].ToAdditive(quorum)
 				if err != nil {
-					return errClass(err)
+					return c02errClass(err)
 				}
 				vals[id] = a.Value()
 			}
@@ -565,15 +565,15 @@ func c02Additive[S algebra.PrimeFieldElement[S]](c *Ctx, r *Rng, f algebra.Prime
 	res := safely(func() string {
 		sch, err := additive.NewScheme(f, ac)
 		if err != nil {
-			return errClass(err)
+			return c02errClass(err)
 		}
 		sec, err := additive.NewSecret(secret)
 		if err != nil {
-			return errClass(err)
+			return c02errClass(err)
 		}
 		out, err := sch.Deal(sec, r)
 		if err != nil {
-			return errClass(err)
+			return c02errClass(err)
 		}
 		shares := map[uint64]*additive.Share[S]{}
 		vals := map[uint64]S{}
@@ -624,11 +624,11 @@ func c02ISN[S algebra.PrimeFieldElement[S]](c *Ctx, r *Rng, f algebra.PrimeField
 	res := safely(func() string {
 		sch, err := isn.NewFiniteScheme(f, ac)
 		if err != nil {
-			return errClass(err)
+			return c02errClass(err)
 		}
 		out, df, err := sch.DealAndRevealDealerFunc(isn.NewSecret(secret), r)
 		if err != nil {
-			return errClass(err)
+			return c02errClass(err)
 		}
 		keys := make([]uint64, 0, len(df))
 		for k := range df {
@@ -688,15 +688,15 @@ func c02ISN[S algebra.PrimeFieldElement[S]](c *Ctx, r *Rng, f algebra.PrimeField
 			continue
 		}
 		res = safely(func() string {
-			quorum, err := unanimity.NewUnanimityAccessStructure(idSet(Q))
+			quorum, err := unanimity.NewUnanimityAccessStructure(c02idSet(Q))
 			if err != nil {
-				return "quorum-" + errClass(err)
+				return "quorum-" + c02errClass(err)
 			}
 			vals := map[uint64]S{}
 			for _, id := range Q {
 				a, err := shares[id].ToAdditive(quorum)
 				if err != nil {
-					return errClass(err)
+					return c02errClass(err)
 				}
 				vals[id] = a.Value()
 			}
@@ -724,11 +724,11 @@ func c02Tassa[S algebra.PrimeFieldElement[S]](c *Ctx, r *Rng, f algebra.PrimeFie
 		var err error
 		sch, err = tassa.NewScheme(ac, f)
 		if err != nil {
-			return errClass(err)
+			return c02errClass(err)
 		}
 		out, poly, err := sch.DealAndRevealDealerFunc(tassa.NewSecret(secret), r)
 		if err != nil {
-			return "deal-" + errClass(err)
+			return "deal-" + c02errClass(err)
 		}
 		coeffs = polyStr(poly.Coefficients(), top)
 		shares = map[uint64]*tassa.Share[S]{}
@@ -765,9 +765,9 @@ func c02Tassa[S algebra.PrimeFieldElement[S]](c *Ctx, r *Rng, f algebra.PrimeFie
 			continue
 		}
 		res = safely(func() string {
-			quorum, err := unanimity.NewUnanimityAccessStructure(idSet(Q))
+			quorum, err := unanimity.NewUnanimityAccessStructure(c02idSet(Q))
 			if err != nil {
-				return "quorum-" + errClass(err)
+				return "quorum-" + c02errClass(err)
 			}
 			vals := map[uint64]S{}
 			for _, id := range Q {
@@ -776,7 +776,7 @@ func c02Tassa[S algebra.PrimeFieldElement[S]](c *Ctx, r *Rng, f algebra.PrimeFie
 				}
 				a, err := sch.ConvertShareToAdditive(shares[id], quorum)
 				if err != nil {
-					return errClass(err)
+					return c02errClass(err)
 				}
 				vals[id] = a.Value()
 			}
@@ -990,11 +990,11 @@ func c02Refusals[S algebra.PrimeFieldElement[S]](c *Ctx, f algebra.PrimeField[S]
 		res := safely(func() string {
 			ac, err := p.build()
 			if err != nil {
-				return "new-" + errClass(err)
+				return "new-" + c02errClass(err)
 			}
 			_, err = kw.NewScheme(f, ac)
 			if err != nil {
-				return errClass(err)
+				return c02errClass(err)
 			}
 			return "ok"
 		})
@@ -1016,11 +1016,11 @@ func c02BigIDs[S algebra.PrimeFieldElement[S]](c *Ctx, f algebra.PrimeField[S]) 
 		res := safely(func() string {
 			ac, err := p.build()
 			if err != nil {
-				return "new-" + errClass(err)
+				return "new-" + c02errClass(err)
 			}
 			sch, err := kw.NewScheme(f, ac)
 			if err != nil {
-				return errClass(err)
+				return c02errClass(err)
 			}
 			return "ok:" + viewMSP(sch.MSP()).str("/")
 		})
@@ -1036,15 +1036,15 @@ func c02BigIDs[S algebra.PrimeFieldElement[S]](c *Ctx, f algebra.PrimeField[S]) 
 		res := safely(func() string {
 			ac, err := p.build()
 			if err != nil {
-				return "new-" + errClass(err)
+				return "new-" + c02errClass(err)
 			}
 			sch, err := isn.NewFiniteScheme(f, ac)
 			if err != nil {
-				return errClass(err)
+				return c02errClass(err)
 			}
 			_, err = sch.Deal(isn.NewSecret(f.One()), NewRng(c.Seed, 260))
 			if err != nil {
-				return "deal-" + errClass(err)
+				return "deal-" + c02errClass(err)
 			}
 			return "ok"
 		})
